@@ -634,7 +634,7 @@ func (s *scenarioRun) emitRun(ri *runInfo, endObs func(e ev)) {
 				s.observe(e, mp, fmt.Sprintf("crash image op=%d bytes=%d power=%v of run %s", i, c.n, power, ri.ep))
 				tw.Emit(e)
 				broken := exists(mp+".compact") && (st2.torn > 0 || st2.pend != nil || st2.hdr == 1)
-				if s.sc.Follow > 0 && s.rng.Intn(100) < s.sc.Follow && (!broken || s.brokenFollows < 2) {
+				if s.sc.Follow > 0 && s.rng.Intn(100) < s.sc.Follow && (!broken || s.brokenFollows < 1) {
 					if broken {
 						s.brokenFollows++ // (each of these leaves an unreadable swamp file, which is expensive to load)
 					}
